@@ -17,7 +17,11 @@ class SPEC:
             "data sets) lack one of the non-pod correlate fields, as records of an exporter whose template has no such element. The declarative "
             "history-level specification Ipfix.C05.expected (sums / latest values / max / throughput formula as folds over the flow's history) "
             "is evaluated on every dumped and exported record of the implementation. A second stream violates the contract on purpose (equal "
-            "end times, decreasing totals); it is compared with the model but reported as out-of-domain only. Non-trivial = >= 2 records on one key.")
+            "end times, decreasing totals); it is compared with the model but reported as out-of-domain only. Crash-only sessions (implementation alone; the model has no such "
+            "records): a flow's first, second or third record comes from a template that lacks one or two of the elements the engine "
+            "puts into a record (`omit=<names>`: flow type, times, end reason, tcpState, pod names, key fields, any counter), followed by "
+            "dumps and expiry scans with and without reset - the aggregation may refuse such a record but must answer every "
+            "operation. Non-trivial = >= 2 records on one key.")
     assumptions = ["the exporter contract of the property (per node: end times strictly increase, totals do not decrease, end > start) and "
                    "8 x (octet total growth) < 2^64 (the wrap branch is the theorem throughput_wraps)",
                    "fixed Antrea configuration of statistics elements; httpVals left out of the configuration"]
@@ -164,6 +168,24 @@ def run(ctx):
             mk = lambda has, e: with_field(8, "45535441424c4953484544" if has else "~").replace(" 1 1 ", " %d %d " % (key, ft), 1).replace(" 100 101 ", " 100 %d " % e, 1)
             crash_only.append(["agg new %d %d" % (A, I), mk(first_has, 101), mk(second_has, 102), "agg dump", mk(True, 103), "agg dump",
                                "agg adv %d" % (A + 1), "agg scan - 1", "agg dump"])
+    # ... and records whose template lacks ANY of the elements the engine puts into a record (omit=<names>), alone and in
+    # pairs, as the first, the second or the third record of a flow, followed by dumps and by an expiry scan whose
+    # callback resets the statistics
+    names = ["flowType", "flowStartSeconds", "flowEndSeconds", "flowEndReason", "tcpState", "sourcePodName", "destinationPodName",
+             "sourceTransportPort", "protocolIdentifier", "sourceIPv4Address"] + \
+            ["packetTotalCount", "packetDeltaCount", "octetTotalCount", "octetDeltaCount", "reversePacketTotalCount",
+             "reversePacketDeltaCount", "reverseOctetTotalCount", "reverseOctetDeltaCount"]
+    rng3 = random.Random(ctx.seed * 1000003 + 506)
+    combos = [[x] for x in names] + [rng3.sample(names, 2) for _ in range(40 if ctx.tier == "quick" else 400)]
+    for om in combos:
+        for pos in (0, 1, 2):
+            key, ft = rng3.choice([(1, 1), (2, 2), (3, 3)])
+            recs = []
+            for j in range(3):
+                o = ok.replace(" 1 1 ", " %d %d " % (key, ft), 1).replace(" 100 101 ", " 100 %d " % (101 + j), 1)
+                recs.append(o + (" omit=" + ",".join(om) if j == pos else ""))
+            crash_only.append(["agg new %d %d" % (A, I)] + recs[:2] + ["agg dump", recs[2], "agg dump", "agg adv %d" % (A + 1),
+                                                                   "agg scan - 1", "agg dump", "agg adv %d" % (I + 1), "agg scan - 0", "agg dump"])
     res = run_simple(ctx, cases, "C05", chk_filter=lambda op: True, stateful_chk=True,
                      chk_variant=lambda op: "agga" + op[3:],
                      signature=lambda c, oi, v, agrees: "C05:%s" % " ".join(v.split(" ")[:3]))
@@ -174,10 +196,12 @@ def run(ctx):
         io = io + ["missing"] * (len(ops) - len(io))
         for oi, x in enumerate(io):
             if x in ("panic", "hang", "missing"):
-                res["predicate_failures"].append({"signature": "C05:no-tcpstate:fails crash", "ops": ops[:oi + 1], "impl": x, "model": "-",
+                om = [t for o in ops for t in o.split(" ") if t.startswith("omit=")]
+                what = "no-tcpstate" if not om else "omit:" + om[0][5:]
+                res["predicate_failures"].append({"signature": "C05:%s:fails crash" % what, "ops": ops[:oi + 1], "impl": x, "model": "-",
                                                   "predicate": {"name": "no-crash rule (the implementation must answer every operation)", "value": "fails crash"}})
                 break
-    res["distribution"]["crash-only:no-tcpstate"] = len(crash_only)
+    res["distribution"]["crash-only sessions (records lacking elements)"] = len(crash_only)
     res["evaluations"] = sum(AG.n_records(o) for c in cases for o in c.ops)
     nmsg = sum(1 for c in cases for o in c.ops if o.startswith("agg msg"))
     nmix = sum(1 for c in cases for o in c.ops if o.startswith("agg msg") and len({g.split()[0] for g in o[8:].split(" + ")}) > 1)
